@@ -53,6 +53,19 @@ TEXT = {
         "design_ref": "DESIGN.md §5 C18", "note": RX_NOTE + " Rotation: Zlink/Model/Select.lean mirrors select_all.rs; tie of whole server runs to scan sequences is by correspondence of the global service order.",
         "technique": "Lean 4 proof (rotation-distance potential argument) on hand-written models; model-vs-implementation correspondence of the global service order plus a fairness oracle",
     },
+    "C13": {
+        "level": "PARTIAL proof + exhaustive-style correspondence. Machine-checked: parsing is total with two outcomes (the model has no panic path; the real parser is run under catch_unwind on every text); the type-name and field-name lexers accept exactly "
+                 "the grammar's regular expressions with longest match (soundness and completeness). The parser model is a function-by-function port (winnow combinator semantics included) that agrees with the real parser on ~65k (quick) / ~1.5M (thorough) "
+                 "legal, truncated, mutated and random texts; an independent Lean oracle (expected tree by construction; tokens + well-formedness for accepted mutants) judges the implementation's verdicts.",
+        "design_ref": "DESIGN.md §5 C13", "note": "Trusted: Lean kernel; the port of winnow's combinators and str::trim; the generator's construction of expected trees; the tokenizer oracle. The syntactic completeness theorem is not yet proved (stated as C13_complete_statement).",
+        "technique": "Lean 4 proof (lexer exactness by induction; kernel-evaluated parses) on a function-by-function port of the parser; model-vs-implementation correspondence with an independent oracle",
+    },
+    "C14": {
+        "level": "PARTIAL proof + correspondence. Machine-checked: a rendered comment line parses back to exactly its content; the known finding (enum with a commented variant) is a theorem about the model; whole descriptions with comments round-trip in kernel-evaluated examples. "
+                 "Renderer and parser models agree with Display / Interface::try_from byte for byte and tree for tree on 4k (quick) / 60k (thorough) constructor-built descriptions (owned and borrowed forms), with the round-trip oracle evaluated on the implementation's observations.",
+        "design_ref": "DESIGN.md §5 C14", "note": "Trusted: as C13 plus the model of the Display impls. The whole-description round-trip theorem is not yet proved (stated as C14_statement). Known findings: commented enum variants (custom and inline).",
+        "technique": "Lean 4 proof (comment layer; counterexample by kernel evaluation) on renderer + parser models; round-trip correspondence run through the public constructors",
+    },
     "C17": {
         "level": "Machine-checked theorems parametric in growth step and limit: buffer capacity never exceeds the limit (inbound: every event sequence; outbound: every operation); a lone frame is "
                  "delivered iff its wire size is below the limit, for every growth step and read-size schedule, otherwise overflow with exactly `max` bytes buffered; an outbound message is accepted iff "
